@@ -144,7 +144,12 @@ M("C15", "inject-off-by-one", TOPS, "target_size - injected)", "target_size - in
 M("C15", "pigrow-halves", TOPS, "yield from self.full.initialize(problem, representation, random, target_size - half)", "yield from self.full.initialize(problem, representation, random, half)", "C15.R2")
 M("C15", "novelty-one-less", "geneticengine/algorithms/gp/operators/novelty.py", "for _ in range(target_size):", "for _ in range(target_size - 1):", "C15.R2")
 M("C15", "ranges-unclamped", COMB, "indices = [0] + [min(v, target_size) for v in shares]", "indices = [0] + [v for v in shares]", "C15.R2p")
-M("C15", "ranges-last-conditional", COMB, "        indices[-1] = target_size\n", "        if indices[-1] < target_size:\n            indices[-1] = target_size\n", "C15.R2p")
+# with the clamp in place 'last < k' is the only way the last boundary can differ from k: patching it conditionally is an
+# equivalent mutant (the list-shape domain refines 'last >= k' and 'all <= k' to 'last == k') ...
+M("C15", "twin-ranges-last-conditional-clamped", COMB, "        indices[-1] = target_size\n", "        if indices[-1] < target_size:\n            indices[-1] = target_size\n", "", expect="silent")
+# ... and a real defect without the clamp (the pinned tree's original form)
+M("C15", "ranges-last-conditional-unclamped", COMB, "        indices[-1] = target_size\n", "        if indices[-1] < target_size:\n            indices[-1] = target_size\n", "C15.R2p",
+  extra=[(COMB, "indices = [0] + [min(v, target_size) for v in shares]", "indices = [0] + [v for v in shares]")])
 M("C15", "parallel-asks-end", COMB, "                    iter(npopulation),\n                    end - start,", "                    iter(npopulation),\n                    end,", "C15.R2p")
 M("C15", "driver-wrong-size", "geneticengine/algorithms/gp/gp.py", "                    population,\n                    self.population_size,", "                    population,\n                    len(population.individuals),", "C15.R3")
 M("C15", "twin-materialise-comprehension", ELI, "        candidates = list(population)", "        candidates = [ind for ind in population]", "", expect="silent")
